@@ -267,6 +267,21 @@ def write_foreign(fl, f, emb, path):
                      txt_style=TXT_STYLES[k], title="Oxs_TimeDriver:evolver:Magnetization")
 
 
+def excised(raw, cut, ndata):
+    """the file with the last k values of the binary data block (inside: and half of one more) removed, footer kept"""
+    _, k, inside = cut
+    m = re.search(rb"^#\s*begin\s*:\s*data[^\n]*\n", raw, re.I | re.M)
+    mode = m.group(0).decode().lower().split()
+    if "binary" not in mode:
+        raise core._tlc.MachineryError("excise on a text file")
+    nb = int(mode[-1])
+    data_end = m.end() + nb + nb * ndata
+    if raw[data_end:data_end + 1] != b"\n":
+        raise core._tlc.MachineryError("binary data block does not end where the header says")
+    gone = k * nb + (nb // 2 if inside else 0)
+    return (data_end - gone, raw[:data_end - gone] + raw[data_end:])
+
+
 def byte_offsets(raw, cut, ndata):
     """every byte offset that realises the spec's truncation class `cut` = (section, k, inside) on this file"""
     sec, k, inside = cut
@@ -483,8 +498,11 @@ def exec_state(df, st, emb, part, scratch, tag):
         variants.append((f"bit{fl['bit']}", bytes(b)))
         fault = "check-bit"
     else:
-        for off in byte_offsets(raw, fl["cut"], len(fl["data"])):
-            variants.append((off, raw[:off]))
+        if fl["cut"][0] == "excise":
+            variants.append(excised(raw, fl["cut"], len(fl["data"])))
+        else:
+            for off in byte_offsets(raw, fl["cut"], len(fl["data"])):
+                variants.append((off, raw[:off]))
         fault = f"truncate-{fl['cut'][0]}{'-inside' if fl['cut'][2] else ''}"
     dpath = os.path.join(scratch, f"{tag}_dmg.ovf")
     for where, data in variants:
